@@ -399,6 +399,81 @@ pub fn fixed_schedules() -> Vec<Sched> {
     ]
 }
 
+/// Stop storm: many quick (position, go, short random delay, stop) rounds on one engine with
+/// no window forced, so that races of a few nanoseconds to microseconds inside the search's
+/// own polling get hundreds of chances.  Positions include capture-saturated ones, where a
+/// stop is only prompt if it is polled inside quiescence.
+pub fn stop_storm(ctx: &Ctx, plan: &[(u16, u16, u16)], corp: &corpus::Corpus, rep: &mut Report) -> Result<(), Violation> {
+    let mut eng = match Engine::spawn(&ctx.engine, &[]) {
+        Ok(e) => e,
+        Err(e) => {
+            rep.infra_errors.push(format!("cannot spawn engine: {e}"));
+            return Ok(());
+        }
+    };
+    if !eng.ready(Duration::from_secs(10)) {
+        rep.infra_errors.push("engine did not answer the first isready".into());
+        return Ok(());
+    }
+    const GOS: [&str; 6] = ["go infinite", "go movetime 5000", "go nodes 500000000", "go wtime 200000 btime 200000", "go depth 60", "go movetime 4000 nodes 400000000"];
+    let mut script: Vec<Value> = vec![];
+    for (ri, &(psel, gsel, dsel)) in plan.iter().enumerate() {
+        // position: startpos, a corpus entry, or a capture-saturated construction
+        let ent = [psel, gsel.wrapping_mul(31), dsel.wrapping_mul(17), psel ^ dsel, 9, 77, 1234, 40000, 7, 50000, 3, 21000, 9999, 5, 60000, 42, 31000, 8, 15000, 2, 45000, 11, 52000, 6, 33000, 1, 27000, 4, 39000, 13];
+        let pos = match psel % 4 {
+            0 => Pos::startpos(),
+            1 | 2 => {
+                let c = &corp.positions[pick16(psel.wrapping_mul(2654), corp.len())];
+                if c.legal_moves().is_empty() {
+                    Pos::startpos()
+                } else {
+                    c.clone()
+                }
+            }
+            _ => gen::heavy_pos(&mut Entropy::new(&ent)).unwrap_or_else(Pos::startpos),
+        };
+        let heavy = psel % 4 == 3;
+        let go = GOS[pick16(gsel, GOS.len())];
+        // delay 0 .. ~30 ms, microsecond granularity, skewed towards short
+        let us = (dsel as u64 * dsel as u64) / 143_000;
+        let fen = pos.to_fen();
+        script.push(json!({"fen": fen, "go": go, "delay_us": us}));
+        eng.send(&format!("position fen {fen}"));
+        eng.send(go);
+        if us > 0 {
+            std::thread::sleep(Duration::from_micros(us));
+        }
+        eng.send("stop");
+        rep.eval(1);
+        let ev = eng.wait_for(Duration::from_secs(2), |e| is_best(e) || e.eof || (e.stream == Stream::Err && uciproc::is_panic_line(&e.line)));
+        let ok = matches!(&ev, Some(e) if is_best(e));
+        if !ok {
+            let refused = eng.stderr_lines().iter().any(|e| e.line.contains("already running"));
+            let kind = if refused { "go-refused" } else { "stop-lost-or-late" };
+            let cls = format!("{}/{}", go.split_whitespace().nth(1).unwrap_or(""), if heavy { "capture-saturated" } else { "ordinary" });
+            return Err(Violation::new(
+                "one-bestmove",
+                &format!("one-bestmove/{kind}/storm/{cls}"),
+                format!("stop storm round {}: '{go}' at {fen}, stop sent after {us} us: no bestmove within 2 s{}", ri + 1, if refused { " (a go was refused: 'Search is already running')" } else { "" }),
+                json!({"storm": script, "transcript": eng.transcript(24)}),
+            ));
+        }
+        let mv = ev.unwrap().line.split_whitespace().nth(1).unwrap_or("").to_string();
+        if pos.find_legal(&mv).is_none() {
+            return Err(Violation::new("legal", "legal/illegal-bestmove/storm", format!("stop storm round {}: bestmove {mv} is not legal at {fen}", ri + 1), json!({"storm": script})));
+        }
+        rep.class(if heavy { "storm:capture-saturated-position" } else { "storm:ordinary-position" });
+        rep.class(&format!("storm:{}", go.split_whitespace().nth(1).unwrap_or("")));
+        rep.nontrivial(o::hash_str(&format!("storm|{fen}|{go}|{us}")));
+    }
+    if !eng.ready(Duration::from_secs(3)) {
+        return Err(Violation::new("readyok", "readyok/missing/storm-end".into(), "no readyok after the stop storm".to_string(), json!({"storm": script})));
+    }
+    eng.send("quit");
+    let _ = eng.wait_exit(Duration::from_secs(2));
+    Ok(())
+}
+
 pub fn run(ctx: &Ctx) -> Report {
     if ctx.shard.is_none() {
         return run_sharded(ctx, SHARDS, SHARDS);
@@ -418,6 +493,13 @@ pub fn run(ctx: &Ctx) -> Report {
             }
         }
     }
+    // stop storms: 60-round plans
+    let storms = ctx.tier.pick(16, 320) / ctx.shard_count() as u32;
+    let plan = proptest::collection::vec((any::<u16>(), any::<u16>(), any::<u16>()), 60);
+    run_prop(ctx, "c10-storm", storms, 12, plan, &mut rep, |plan, rep| {
+        rep.class("stop-storm(60 rounds)");
+        stop_storm(ctx, plan, &corp, rep)
+    });
     let cases = ctx.tier.pick(72, 2400) / ctx.shard_count() as u32;
     run_prop(ctx, "c10", cases, 12, strategy(), &mut rep, |c, rep| {
         let Some(s) = build(c, &corp) else { return Ok(()) };
@@ -429,6 +511,36 @@ pub fn run(ctx: &Ctx) -> Report {
 
 pub fn replay(ctx: &Ctx, case: &Value) -> Report {
     let mut rep = Report::new();
+    if let Some(storm) = case["storm"].as_array() {
+        // a storm is a race: repeat the recorded rounds several times
+        for _ in 0..20 {
+            let mut eng = match Engine::spawn(&ctx.engine, &[]) {
+                Ok(e) => e,
+                Err(_) => break,
+            };
+            if !eng.ready(Duration::from_secs(10)) {
+                break;
+            }
+            for r in storm {
+                let fen = r["fen"].as_str().unwrap_or("");
+                let go = r["go"].as_str().unwrap_or("go infinite");
+                eng.send(&format!("position fen {fen}"));
+                eng.send(go);
+                let us = r["delay_us"].as_u64().unwrap_or(0);
+                if us > 0 {
+                    std::thread::sleep(Duration::from_micros(us));
+                }
+                eng.send("stop");
+                rep.eval(1);
+                let ev = eng.wait_for(Duration::from_secs(2), |e| is_best(e) || e.eof);
+                if !matches!(&ev, Some(e) if is_best(e)) {
+                    rep.violation(Violation::new("one-bestmove", "one-bestmove/stop-lost-or-late/storm/replay", format!("'{go}' at {fen}: no bestmove within 2 s of stop"), case.clone()));
+                    return rep;
+                }
+            }
+        }
+        return rep;
+    }
     let rounds: Vec<Round> = case["rounds"]
         .as_array()
         .map(|a| {
@@ -455,7 +567,7 @@ pub fn replay(ctx: &Ctx, case: &Value) -> Report {
 }
 
 pub const LEVEL: &str = "exploration";
-pub const RULE: &str = "schedules against the real engine binary built with the cfg(rce_verif) schedule points: one labelled point (search:enter, search:armed, search:iter1, search:pre_best, search:post_best, uci:spawned) holds its window open for 50/150/300 ms, all points are traced; 1..3 rounds of (position, go {infinite | movetime 300 | nodes N | depth 3 | clocks}, trigger {when a label is seen | when the bestmove is seen | plain delay 0/5/50 ms | none}, action {stop | isready | position | none}); the GUI side stays protocol-conformant (a new go only after the previous bestmove). Occasionally the first go of a round is followed by a second go while the search still runs (its own fate is not judged; the stop after it must work) and a round may search a finished game (exactly one bestmove line, content not judged). Plus 10 fixed schedules for the interleavings the statement names. Oracle: every go => exactly one bestmove, legal in the position current when that go was sent; after stop the bestmove arrives within 2 s + injected sleeps; every isready => readyok within 3 s + sleeps; no go of a conformant script is refused. Non-trivial = the realised trace shows a command sent directly after the forced window's label (i.e. inside the window); distinct by realised order of labels, commands and bestmoves.";
+pub const RULE: &str = "schedules against the real engine binary built with the cfg(rce_verif) schedule points: one labelled point (search:enter, search:armed, search:iter1, search:pre_best, search:post_best, uci:spawned) holds its window open for 50/150/300 ms, all points are traced; 1..3 rounds of (position, go {infinite | movetime 300 | nodes N | depth 3 | clocks}, trigger {when a label is seen | when the bestmove is seen | plain delay 0/5/50 ms | none}, action {stop | isready | position | none}); the GUI side stays protocol-conformant (a new go only after the previous bestmove). Occasionally the first go of a round is followed by a second go while the search still runs (its own fate is not judged; the stop after it must work) and a round may search a finished game (exactly one bestmove line, content not judged). Plus 10 fixed schedules for the interleavings the statement names, and stop storms: 60-round plans of (position incl. capture-saturated 5-9-queen constructions, go {infinite | movetime | nodes | clocks | depth 60}, stop after a generated delay of 0..30 ms) on one engine with no window forced, bestmove due within 2 s of each stop. Oracle: every go => exactly one bestmove, legal in the position current when that go was sent; after stop the bestmove arrives within 2 s + injected sleeps; every isready => readyok within 3 s + sleeps; no go of a conformant script is refused. Non-trivial = the realised trace shows a command sent directly after the forced window's label (i.e. inside the window); distinct by realised order of labels, commands and bestmoves.";
 pub const ASSUMPTIONS: &[&str] = &[
     "the labelled schedule points are the events the property names; orders that need a window at an unlabelled point are not reached",
     "all deadlines include the injected sleeps and a missing answer is a failure under any timing, so forcing a window cannot create a false alarm",
